@@ -403,15 +403,6 @@ func (e *c06Env) capture(rep *vfReport, hist []string) (string, string) {
 		seg = c06Frames(fs)
 		e.segs = append(e.segs, append([]byte(nil), buf.Bytes()...))
 	}
-	outcome := "busy"
-	switch {
-	case err == nil && meta.Code == 0:
-		outcome = "truncated"
-		e.walSeen, e.nFrames = false, 0
-	case err == nil:
-		outcome = "all-moved-not-truncated"
-		e.armedSalt = [2]uint32(preSalt)
-	}
 	// oracle: a reset since the watch was armed must be reported
 	if preArmed && hdr {
 		changed := [2]uint32(preSalt) != e.armedSalt
@@ -421,6 +412,15 @@ func (e *c06Env) capture(rep *vfReport, hist []string) (string, string) {
 		}
 	} else if meta.WALReset {
 		rep.Fail("reset-reported-while-unarmed", "WALReset=true but the watch was not armed", map[string]interface{}{"history": hist})
+	}
+	outcome := "busy"
+	switch {
+	case err == nil && meta.Code == 0:
+		outcome = "truncated"
+		e.walSeen, e.nFrames = false, 0
+	case err == nil:
+		outcome = "all-moved-not-truncated"
+		e.armedSalt = [2]uint32(preSalt)
 	}
 	out := fmt.Sprintf("rc=%d pages=%d moved=%d reset=%v err=%s armed=%v resume=%d seg=%s", meta.Code, meta.Pages, meta.Moved,
 		meta.WALReset, kind, e.cm.resetWatch.armed, e.cm.resetWatch.resumeFrameIdx, seg)
